@@ -58,6 +58,8 @@ func checkC02(r *Report) {
 	// SIGNED-PARSE: identifier text is not read by a sign-accepting parser
 	nSP := signedParseRule(r, loadResolve("", true), "C02/SIGNED-PARSE", "semver")
 	r.floor("C02/SIGNED-PARSE", "strconv.ParseInt/Atoi calls in package semver", nSP, 2)
+	nPE := parseErrorUsedRule(r, loadResolve("", true), "C02/PARSE-ERROR-USED", "semver")
+	r.floor("C02/PARSE-ERROR-USED", "strconv number parsers called in package semver", nPE, 5)
 	// PEP440-TEXT-FOLDED
 	nTF := textFoldedRule(r, loadResolve("", true), "C02/PEP440-TEXT-FOLDED", "pep440")
 	r.floor("C02/PEP440-TEXT-FOLDED", "stores to string fields of the parsed PEP 440 extension", nTF, 2)
